@@ -161,6 +161,8 @@ func verifSplitArray(data []byte, start int) (items []RawMessage, end int, ok bo
 	return nil, 0, false
 }
 
+func verifCopyShape(src any, dstPtr any) bool { return false } // intercepted: field-wise copy if shapes agree
+
 func verifBoundExceeded(why string) {} // intercepted: ends the path as a bound failure
 
 // contract for (*Decoder).Decode
@@ -222,6 +224,15 @@ func VerifStubDecoderDecode(d *_cbor.Decoder, dest any) error {
 		}
 		*v = arg
 		st.pos += hlen
+		return nil
+	}
+	if VerifDepositValue != nil {
+		// typed decode of what the harness encoded: succeeds iff the destination has the same
+		// flattened field list (the array shape of a toarray struct / a bare scalar)
+		if !verifCopyShape(VerifDepositValue, dest) {
+			return errVerifStub
+		}
+		st.pos = len(st.data)
 		return nil
 	}
 	if verifDeposit("decode", dest) {
